@@ -2,14 +2,16 @@
 EXTENDS DelegCli
 MC_AnyPlan == {<<>>}
 \* generation: the usual opening (the holder creates A, the owner delegates to it), then any kinds
-Free == {<<"create", "owneradd">> \o q : q \in [1..(MaxSteps - 2) -> Kinds \ {"owneradd"}]}
+FreeLen == IF MaxSteps - 2 > 5 THEN 5 ELSE MaxSteps - 2        \* the set of plans must stay enumerable
+Free == {<<"create", "owneradd">> \o q : q \in [1..FreeLen -> Kinds \ {"owneradd"}]}
 \* every other command is the owner incorporating what was staged
 Alt  == {<<"create", "owneradd">> \o [i \in 1..(MaxSteps - 2) |-> IF i % 2 = 0 THEN "incorporate" ELSE q[(i + 1) \div 2]] :
             q \in [1..((MaxSteps - 1) \div 2) -> Kinds \ {"owneradd", "incorporate"}]}
 \* the second-level flow: B is created, A delegates to it, the owner incorporates A, B's holder updates, ...
 \* the two-step way of adding a role: staged by the owner, then published with `update --role targets`
 Staged == {<<"create", "owneraddstaged", "incorporateT">> \o q : q \in [1..(MaxSteps - 3) -> Kinds \ {"owneradd"}]}
-Deep == {<<"create", "owneradd", "create", "delegadd", "incorporate">> \o q : q \in [1..(MaxSteps - 5) -> {"update", "incorporate", "removekey", "create"}]}
+Deep == {<<"create", "owneradd", "create", "delegadd", "incorporateA">> \o q :
+            q \in [1..(MaxSteps - 5) -> {"update", "incorporate", "removekey", "create", "haddkey", "hremovekey", "hremoverole"}]}
 MC_Free == Free
 MC_Alt == Alt
 MC_Deep == Deep
